@@ -122,4 +122,38 @@ CLAIMED["C05"] = {
     "note": TRUST,
 }
 
+CLAIMED["C11"] = {
+    "technique": "path-sensitive ownership typestate (use-after-release, double release) over all functions; exact interval evaluation with branch refinement for shift amounts; conservation checks of the checkpoint-size account; who-may-write table and linear-form comparison of send/receive size arithmetic; overflow-guard truth table",
+    "text": ("Memory safety of the whole runtime is NOT decided (no sound whole-program analyser is available here). Decided on every run are the "
+             "memory-safety clauses that are structural: no message buffer is dereferenced, passed on or released again after its release on any "
+             "path of any function; every shift whose amount is an exact expression of bounded inputs (51 of 60 today; loop-variable amounts are "
+             "listed as inconclusive) stays below its operand width for all inputs, including all 2^64 raw generator outputs; the checkpoint "
+             "buffer account is conserved by all writers and checkpoint_take allocates exactly it; lp_msg.pl_size, which selects free-list vs "
+             "free(), is written only by the allocator and the anti-message receive path with the allocated size, and the event receive buffer "
+             "arithmetic is the inverse of the sender's; rs_calloc's size product is overflow-checked."),
+    "note": TRUST + " Doubles are treated as reals in interval reasoning.",
+}
+CLAIMED["C12"] = {
+    "technique": "effect-free-failure path rule (no mutating element can reach a return NULL), overflow-guard truth table, value-flow equality (zeroed length = requested size), dominance (copy before free, free only after success)",
+    "text": ("Decided on every run: no store or mutating call can precede any return NULL of rs_malloc / rs_calloc / rs_realloc; zero-size requests and "
+             "block orders above the arena size take such a path (the limit is compared with the arena's real size from the record layout); "
+             "rs_calloc computes nmemb * size only when, in every model of its guard, the divisor is zero or the quotient test excludes overflow, "
+             "zeroes exactly the requested length at the returned pointer on the non-NULL edge; rs_realloc copies min(requested, original) into "
+             "the new block before freeing the old one and frees it only when the new allocation succeeded; rs_free(NULL) touches nothing. NOT "
+             "decided: that blocks are inside allocator memory, aligned, disjoint and stable (buddy-tree arithmetic over operation histories)."),
+    "note": TRUST,
+}
+CLAIMED["C18"] = {
+    "technique": "exact interval evaluation over the AST with reaching definitions, branch refinement (including rejection-loop exit conditions), loop-carried fixpoints, endpoint attainability tests; effect analysis for generator isolation",
+    "text": ("Decided on every run, for ALL generator states (the raw output ranges over [0, 2^64-1]): Random() returns 0.0 for the zero draw and "
+             "otherwise assembles a bit pattern whose biased exponent is within 959..1022 and whose mantissa stays below 2^52, i.e. a value in "
+             "(0,1); every shift amount in the library is below its operand width; floating divisors exclude 0, log arguments are strictly "
+             "positive and sqrt arguments non-negative wherever the operands derive from the generator only (Normal, Gamma's small-ia branch, "
+             "Gamma's v2/v1, Poisson), a violating endpoint being reported only when every test on the way admits it; Poisson() is finite and "
+             ">= 0; RandomRange stays in [min,max] on representative argument pairs; the library writes only locals and the calling LP's "
+             "generator, has no static or file-scope mutable state, and draws only through RandomU64(). Operands that depend on caller-supplied "
+             "arguments (Zipf, Gamma's large-ia rejection loop) are listed inconclusive. NOT decided: distribution quality and argument domains."),
+    "note": TRUST + " Doubles are treated as reals: rounding and underflow are ignored.",
+}
+
 NOT_APPLICABLE = {}
